@@ -14,7 +14,7 @@
 (***************************************************************************)
 EXTENDS Sync, Json
 
-CONSTANTS MaxRound, MaxSnaps, MaxEarly, Late, MaxPub, MaxAhead, Interleave, Faults, RefChoice, RemoteAnytime, Eager
+CONSTANTS MaxRound, MaxSnaps, MaxEarly, Late, MaxPub, MaxAhead, Interleave, Faults, RefChoice, RemoteAnytime, Eager, Track
 
 VARIABLES S, ctl, last
 vars == <<S, ctl, last>>
@@ -34,7 +34,7 @@ InitS ==
      dropped |-> FALSE]
 
 Init == /\ S = InitS
-        /\ ctl = [ph |-> "grow", early |-> 0]
+        /\ ctl = [ph |-> "grow", early |-> 0, ahead |-> 0, pass |-> 0, cur |-> {}, scan |-> {}]
         /\ last = [op |-> "Init"]
 
 lf == LFin(S.L)
@@ -92,31 +92,15 @@ RemoteOK == ctl.ph = "sync" /\ (RemoteAnytime \/ S.pc = "poll")
 Stl(X) == IF Eager THEN Settle(X) ELSE X
 ElseOK == ctl.ph = "init" \/ (Interleave /\ RemoteOK)
 
-\* the remote learns a snapshot from another peer: delivery, closing of the head round if the snapshot
-\* opens the next one, admission - fused into one step (other peers' deliveries that wait in the pool
-\* are not kept)
-CanLearn(i) ==
-    LET c == S.L[i].c
-        n == S.L[i].n IN
-    /\ ~RHas(S, i)
-    /\ \/ n = S.rfin[c] + 1 /\ RefKnown(S, c, n)
-       \/ /\ S.rfin[c] >= 0 /\ n = S.rfin[c] + 2
-          /\ RoundPos(S.L, c, n - 1) \subseteq S.rcache
-          /\ RefKnown(S, c, n)
-Learnt(i) ==
-    LET c  == S.L[i].c
-        S1 == IF S.L[i].n = S.rfin[c] + 2 THEN DoClose(S, c) ELSE S IN
-    DoAdmit([S1 EXCEPT !.rpool = S1.rpool \cup {i}], i)
-
 Elsewhere(i) ==
-    /\ ElseOK /\ CanLearn(i)
-    /\ S' = Learnt(i)
+    /\ ElseOK /\ CanLearn(S, i)
+    /\ S' = Learnt(S, i)
     /\ last' = [op |-> "Elsewhere", i |-> i] /\ ctl' = ctl
 
 Ahead(c) ==
-    /\ ElseOK /\ CanAhead(S, c, MaxRound + MaxAhead)
+    /\ ElseOK /\ ctl.ahead < MaxAhead /\ CanAhead(S, c, MaxRound + 1)
     /\ S' = DoAhead(S, c)
-    /\ last' = [op |-> "Ahead", c |-> c] /\ ctl' = ctl
+    /\ last' = [op |-> "Ahead", c |-> c] /\ ctl' = [ctl EXCEPT !.ahead = ctl.ahead + 1]
 
 Admit(i) ==
     /\ RemoteOK /\ ~Eager /\ CanAdmit(S, i)
@@ -142,7 +126,8 @@ Poll ==
 
 EndPoll ==
     /\ ctl.ph = "sync" /\ S.pc = "poll" /\ S.have
-    /\ S' = DoEndPoll(S) /\ last' = [op |-> "EndPoll"] /\ ctl' = ctl
+    /\ S' = DoEndPoll(S) /\ last' = [op |-> "EndPoll"]
+    /\ ctl' = IF Track /\ ~AllHeld(S) THEN [ctl EXCEPT !.pass = ctl.pass + 1] ELSE ctl
 
 FailSets(P) == IF Faults THEN {{}} \cup { {i} : i \in P } ELSE {{}}
 
@@ -160,7 +145,10 @@ SinceStep ==
          LET r == DoSince(S, fail) IN
            /\ S' = Stl(r.S)
            /\ last' = [op |-> "Since", fail |-> fail] @@ r.out
-    /\ ctl' = ctl
+           /\ ctl' = IF ~Track THEN ctl
+                     ELSE LET rd == { r.out.read[k] : k \in DOMAIN r.out.read } IN
+                          IF r.out.cls = "OK" THEN [ctl EXCEPT !.cur = ctl.cur \cup rd]
+                          ELSE [ctl EXCEPT !.cur = {}, !.scan = ctl.scan \cup ctl.cur \cup rd]
 
 Remote == (\E i \in DOMAIN S.L : Elsewhere(i) \/ Admit(i)) \/ (\E c \in Chains : Ahead(c) \/ Close(c))
 Loop == Poll \/ EndPoll \/ HeadStep \/ SinceStep
@@ -235,6 +223,16 @@ NoWaste == [][(IsOp("Since") \/ IsOp("Head")) => \A k \in DOMAIN last'.sent : ~R
 \* the stream reads only from the first lacking snapshot on (fails: the FIXME of sync.go)
 NoWastedScan == [][(IsOp("Since") /\ Lacking(S) # {}) =>
                      \A k \in DOMAIN last'.read : last'.read[k] >= SyMinOf(Lacking(S))]_vars
+
+\* a position is read by the stream in one pass only (fails: after FUTURE the next pass starts again from
+\* the offset of the slowest chain; needs Track = TRUE)
+NoRescan == [][IsOp("Since") => \A k \in DOMAIN last'.read : last'.read[k] \notin ctl.scan]_vars
+NoRescanFresh == [][(IsOp("Since") /\ S.graph = S.rfin) => \A k \in DOMAIN last'.read : last'.read[k] \notin ctl.scan]_vars
+\* number of passes started while the remote lacks something (Track = TRUE); PassBound(k) as invariant
+PassBound2 == ctl.pass <= 2
+PassBound3 == ctl.pass <= 3
+PassBound4 == ctl.pass <= 4
+PassBound5 == ctl.pass <= 5
 
 (* ---- non-vacuity witnesses (must be violated) *)
 ReachFuture == [][~(IsOp("Since") /\ last'.cls = "FUTURE" /\ last'.sent # <<>>)]_vars
